@@ -399,6 +399,10 @@ func mwUsers() []mwUser {
 		// the confirmation names who is expected to present the assertion; that is not the subject (saml-core 2.4.1.1)
 		{NoNameID: true, Confirmer: "zQgatewayQz", Index: "si-relayed", Attrs: []AttrSpec{{Name: "role", Friendly: "role", Values: []string{"user"}}}},
 		{NameID: "ivan", Confirmer: "zQgatewayQz", Index: "si-ivan", Attrs: []AttrSpec{{Name: "role", Friendly: "role", Values: []string{"admin"}}}},
+		// attribute values that are patterns of some matching language or other; the gate asks for the value admin
+		{NameID: "judy", Index: "si-judy", Attrs: []AttrSpec{{Name: "role", Friendly: "role", Values: []string{"*"}}}},
+		{NameID: "karl", Index: "si-karl", Attrs: []AttrSpec{{Name: "role", Friendly: "role", Values: []string{"user", "adm?n", "[a-z]dmin"}}}},
+		{NameID: "lena", Index: "si-lena", Attrs: []AttrSpec{{Name: "role", Friendly: "role", Values: []string{"a*", ".*", "^admin$|", "\\admin", "%", "admin*"}}}},
 		{NameID: "\u00a0bob@example.com", Index: "si-bob-nbsp", Attrs: []AttrSpec{{Name: "role", Friendly: "role", Values: []string{"admin\t"}}}},
 	}
 }
